@@ -167,6 +167,7 @@ type vmCfg struct {
 	PerAdder  int
 	Close     string // none | after | during
 	ConnClose bool   // the connection is closed mid-way: only "at most once" remains
+	NilPct    int    // per cent of the getters that return (nil, true): nothing to append, but still "handled"
 	Bulk      bool   // getters carry no data (isNil): hundreds of thousands of Adds per trial, only the invocation counts are judged
 	Mode      int
 	P, Q      int
@@ -244,6 +245,7 @@ func vmTrial(r *vfRng, cfg vmCfg) (res vmResult) {
 
 	total := cfg.Adders * cfg.PerAdder
 	counts := make([]int32, total)    // getter invocations
+	nilIDs := make([]int32, total)    // 1: this getter returns (nil, true)
 	addedAt := make([]int64, total)   // monotonic time at which Add returned (0: not yet)
 	var closeCalled, closeReturned int64
 	var wg sync.WaitGroup
@@ -264,9 +266,13 @@ func vmTrial(r *vfRng, cfg vmCfg) (res vmResult) {
 				if ar.chance(5) {
 					n = ar.rng(4000, 9000)
 				}
+				isNil := !cfg.Bulk && ar.chance(cfg.NilPct)
+				if isNil {
+					atomic.StoreInt32(&nilIDs[id], 1)
+				}
 				g := func() (netpoll.Writer, bool) {
 					atomic.AddInt32(&counts[id], 1)
-					if cfg.Bulk {
+					if cfg.Bulk || isNil {
 						return nil, true
 					}
 					return vmFrame(uint32(id), n), false
@@ -381,6 +387,12 @@ func vmTrial(r *vfRng, cfg vmCfg) (res vmResult) {
 		missing := 0
 		peer.mu.Lock()
 		for id := range counts {
+			// a nil getter sends nothing: it is delivered once it has been invoked
+			if atomic.LoadInt32(&nilIDs[id]) == 1 && atomic.LoadInt32(&counts[id]) > 0 {
+				peer.seen[uint32(id)] = 1
+			}
+		}
+		for id := range counts {
 			if must(id) && peer.seen[uint32(id)] == 0 {
 				missing++
 			}
@@ -461,7 +473,7 @@ func vmTrial(r *vfRng, cfg vmCfg) (res vmResult) {
 		}
 	}
 	res.nontrivial = cfg.Adders >= 2
-	res.sig = fmt.Sprintf("shards=%d|adders=%d|close=%s|connclose=%v|mode=%d|real=%v|bulk=%v", vmClass(cfg.Shards), vmClass(cfg.Adders), cfg.Close, cfg.ConnClose, cfg.Mode, res.realised, cfg.Bulk)
+	res.sig = fmt.Sprintf("shards=%d|adders=%d|close=%s|connclose=%v|mode=%d|real=%v|bulk=%v|nil=%v", vmClass(cfg.Shards), vmClass(cfg.Adders), cfg.Close, cfg.ConnClose, cfg.Mode, res.realised, cfg.Bulk, cfg.NilPct > 0)
 	return
 }
 
@@ -494,6 +506,9 @@ func vmGenCfg(r *vfRng) vmCfg {
 	}
 	cfg.Close = []string{"none", "none", "after", "during"}[r.intn(4)]
 	cfg.ConnClose = r.chance(10)
+	if !cfg.Bulk {
+		cfg.NilPct = []int{0, 0, 30, 70}[r.intn(4)]
+	}
 	switch r.intn(3) {
 	case 0:
 		cfg.Mode = 1
@@ -537,6 +552,9 @@ func TestVerifMux(t *testing.T) {
 		{Shards: 32, Adders: 64, PerAdder: 20, Close: "after", Mode: 1},
 		{Shards: 8, Adders: 16, PerAdder: 20000, Close: "none", Bulk: true},
 		{Shards: 2, Adders: 16, PerAdder: 10000, Close: "after", Bulk: true},
+		{Shards: 3, Adders: 2, PerAdder: 3, Close: "none", NilPct: 60},
+		{Shards: 2, Adders: 2, PerAdder: 2, Close: "none", NilPct: 50, Mode: 1},
+		{Shards: 8, Adders: 4, PerAdder: 4, Close: "none", NilPct: 70},
 	}
 	first := from
 	if from == 0 && vfEnvInt("VERIF_NO_DIRECTED", 0) == 0 {
